@@ -159,6 +159,27 @@ pub struct Ctx {
     pub strict: bool,
 }
 
+static SOFT_KNOWN: std::sync::RwLock<Vec<(KnownFinding, String)>> = std::sync::RwLock::new(Vec::new());
+static SOFT_HITS: std::sync::Mutex<BTreeMap<String, u64>> = std::sync::Mutex::new(BTreeMap::new());
+
+/// For oracles that check several independent facts per case: a failure whose signature is a listed
+/// known finding is counted and skipped (the input class is excluded, the rest of the case is still checked);
+/// any other failure is returned.
+pub fn soft_fail(f: Failure) -> CaseResult {
+    let known = SOFT_KNOWN.read().unwrap();
+    if known.iter().any(|(k, id)| k.matches(id, &f.sig)) {
+        *SOFT_HITS.lock().unwrap().entry(f.sig).or_insert(0) += 1;
+        Ok(())
+    } else {
+        Err(f)
+    }
+}
+
+/// Whether `sig` is a listed known finding of the running property (false in replay mode).
+pub fn is_known_sig(sig: &str) -> bool {
+    SOFT_KNOWN.read().unwrap().iter().any(|(k, id)| k.matches(id, sig))
+}
+
 thread_local! {
     static LAST_PANIC: RefCell<Option<String>> = RefCell::new(None);
 }
@@ -237,6 +258,7 @@ impl Ctx {
             .and_then(|v| v.get("findings").cloned())
             .and_then(|v| serde_json::from_value(v).ok())
             .unwrap_or_default();
+        *SOFT_KNOWN.write().unwrap() = known.iter().filter(|k| k.property == id).map(|k| (k.clone(), id.to_string())).collect();
         Self {
             id: id.to_string(),
             tier,
@@ -572,7 +594,19 @@ impl Ctx {
         self.samples.extend(samples.into_iter().map(truncate_value));
     }
 
+    /// Replay mode: known findings suppress nothing.
+    pub fn set_strict(&mut self) {
+        self.strict = true;
+        SOFT_KNOWN.write().unwrap().clear();
+    }
+
     pub fn finish(mut self) -> i32 {
+        let soft: Vec<(String, u64)> = SOFT_HITS.lock().unwrap().iter().map(|(k, v)| (k.clone(), *v)).collect();
+        for (sig, n) in soft {
+            let what = self.is_known(&sig).map(|k| k.what.clone()).unwrap_or_default();
+            let e = self.known_hits.entry(sig).or_insert((0, what));
+            e.0 += n;
+        }
         let evaluations: u64 = self.subs.iter().map(|s| s.evaluations).sum();
         let distinct: u64 = self.subs.iter().map(|s| s.distinct_nontrivial).sum();
         let all_exhaustive = !self.subs.is_empty() && self.subs.iter().all(|s| s.exhaustive);
